@@ -526,7 +526,15 @@ fn mask_metrics(v: &mut ciborium::Value) {
 /// Logical dump (contents, not B-tree layout) of everything `Serialize` skips: the stable
 /// maps, the block cache and the per-block metrics.
 pub fn logical_dump() -> Vec<u8> {
+    let (mut a, b) = logical_dump_parts();
+    a.extend(b);
+    a
+}
+
+/// (stable maps + block cache, per-block metrics)
+pub fn logical_dump_parts() -> (Vec<u8>, Vec<u8>) {
     let mut out: Vec<u8> = vec![];
+    let mut metrics: Vec<u8> = vec![];
     fn put(out: &mut Vec<u8>, b: &[u8]) {
         out.extend((b.len() as u32).to_le_bytes());
         out.extend(b);
@@ -565,22 +573,21 @@ pub fn logical_dump() -> Vec<u8> {
             put(&mut out, h.as_bytes());
             put(&mut out, &bytes);
         }
-        out.push(0xA7);
         for (h, fees, delta) in s.unstable_blocks.verif_block_metrics() {
-            put(&mut out, h.as_bytes());
+            put(&mut metrics, h.as_bytes());
             match fees {
-                None => out.push(0),
+                None => metrics.push(0),
                 Some(f) => {
-                    out.push(1);
+                    metrics.push(1);
                     for x in f {
-                        out.extend(x.to_le_bytes());
+                        metrics.extend(x.to_le_bytes());
                     }
                 }
             }
-            out.extend(delta.to_le_bytes());
+            metrics.extend(delta.to_le_bytes());
         }
     });
-    out
+    (out, metrics)
 }
 
 /// 128-bit fingerprint of the complete logical canister state.
